@@ -1,7 +1,8 @@
 (* C12 — lemmas about the lineshape trees regenerated from /repo (Gen_C12). *)
 From AV Require Import DenC Lineshape.
 From AVchk Require Import Gen_C12.
-From Coq Require Import Lra Lia Psatz.
+From Coq Require Import Lra Lia Psatz QArith.
+Open Scope R_scope.
 Open Scope C_scope.
 
 Lemma Cmult_neq_l (a b : C) : a * b <> 0 -> a <> 0.
@@ -49,6 +50,29 @@ Proof.
   repeat split; try exact I; try assumption;
     try (apply Cmult_neq_0; assumption).
 Qed.
+
+(* ---------- numbers inserted before evaluate() ---------- *)
+(* The width tree built from exact numbers that coincide with other arguments (s = d, s = L, ...) is the symbolic
+   tree at those values: same definedness, same value, for every interpretation of FormFactor and of the
+   phase-space factor and all values of the remaining symbols. *)
+Definition inst_env (assign : list (string * Q)) (f : string -> list C -> C) (s m0 g0 ma mb L d : C) : envC :=
+  envC_of (map (fun kq => (fst kq, Q2C (snd kq))) assign
+           ++ [("s", s); ("m0", m0); ("g0", g0); ("ma", ma); ("mb", mb); ("L", L); ("d", d)]) f.
+
+Definition numeric_first_ok (it : string * list (string * Q) * expr * expr) : Prop :=
+  let '(_, assign, sym_tree, num_tree) := it in
+  forall f s m0 g0 ma mb L d,
+    let ρ := inst_env assign f s m0 g0 ma mb L d in
+    (wdC ρ sym_tree <-> wdC ρ num_tree) /\ (wdC ρ sym_tree -> denC ρ num_tree = denC ρ sym_tree).
+
+Ltac solve_numfirst :=
+  unfold numeric_first_ok, inst_env; intros f s m0 g0 ma mb L d; cbn [map fst snd app];
+  denC_simpl; split;
+  [ tauto
+  | intros Hwd; first [ reflexivity | (split_hyps; neq_factors; field; repeat split; assumption) ] ].
+
+Lemma edw_numeric_first : Forall numeric_first_ok gen_edw_numeric_first.
+Proof. unfold gen_edw_numeric_first. repeat (constructor; [solve_numfirst|]). constructor. Qed.
 
 (* ---------- builder API = function API ---------- *)
 Definition same_function (a b : expr) : Prop :=
